@@ -18,6 +18,8 @@ import mosaik, mosaik_api_v3
 import mosaik.scheduler as sched
 from loguru import logger
 logger.remove()
+import logging
+logging.getLogger('asyncio').setLevel(logging.CRITICAL)
 
 CTX = types.SimpleNamespace(ctrl=None, world=None)
 
